@@ -38,7 +38,8 @@ def translator_stage(ctx: Ctx, grid):
         ctx.violation("generated C17 programs do not compile", {"broken": "coq/gen/C17_gen.v", "output": out[-1500:]},
                       found_input=False)
         return allp, {}, {}
-    pure_res, summ_res = eval_results(out)
+    pure_res, summ_res, slot_res = eval_results(out)
+    other_writes = {name: list(lst) for name, lst in slot_res}
     pure = {name: (b == ("atom", "true")) for name, b in pure_res}
     bad_writes = {}
     for name, lst in summ_res:
@@ -48,6 +49,12 @@ def translator_stage(ctx: Ctx, grid):
         p["bad_writes"] = bad_writes.get(p["name"], [])
         ctx.obligation(f"pure (program of {p['name']}) = true", p["pure"],
                        f"writes not SetFromArg: {p['bad_writes'][:6]}; unknown constructs: {p['unknown'][:3]}")
+        # entry methods (not constructors) may write nothing but dialect slots
+        p["other_writes"] = other_writes.get(p["name"], ["<not evaluated>"])
+        if p.get("entry") != "__init__":
+            p["slots_ok"] = not p["other_writes"]
+            ctx.obligation(f"writes_only_dialect_slots (program of {p['name']}) = true", p["slots_ok"],
+                           f"also writes {p['other_writes'][:6]}")
     for p in ce:
         if p.get("builder"):
             ctx.obligation(f"{p['name']} returns a clone, not its receiver", not p["returns_receiver"])
@@ -106,12 +113,12 @@ def run(ctx: Ctx):
     found = c17_x.correspondence(ctx, grid, allp, baseline=baseline)
     # failed obligations without a concrete failing input from X
     for p in allp:
-        if p.get("pure", False):
+        if p.get("pure", False) and p.get("slots_ok", True):
             continue
         cls = p["name"].split(".")[1]
         if cls in found:
             continue
-        ctx.violation(f"effect-summary obligation failed for {p['name']}: writes {p.get('bad_writes', [])[:6]} "
+        ctx.violation(f"effect-summary obligation failed for {p['name']}: writes {(p.get('bad_writes') or p.get('other_writes', []))[:6]} "
                       f"{p['unknown'][:2]}; no call history with a different result was found",
                       {"broken": f"pure {p['name']}", "bad_writes": p.get("bad_writes", []), "unknown": p["unknown"][:5]},
                       {"class": cls, "entry": p["name"].split(".")[-1], "unconfirmed": True}, found_input=False)
